@@ -422,6 +422,10 @@ class Unit:
 
         hints_by_id = {h["id"]: h for h in d.hints}
         text = r["text"]
+        if d.opts.get("noisolation"):
+            # facts about variables the loop does not modify stay visible inside loop bodies (robust against hoisting a
+            # loop-invariant `let` out of a loop / closure)
+            text = "#[verifier::loop_isolation(false)]\n" + text
         if vacuity:
             text = re.sub(r"\bfn %s\b" % re.escape(name), "fn %s__vac" % name, text, count=1)
         parts = re.split(r"(/\*@[A-Z]+:?[A-Za-z0-9]*@\*/)", text)
